@@ -378,8 +378,31 @@ def run_cli(case):
                 counters["cli_bundled_relative"] += 1
         else:
             text, secs, tags = gen_ini(rng, False)
-            cfgarg = os.path.join(d, "g%d.ini" % t)
-            open(cfgarg, "w").write(text)
+            # the user's own file given in every path form a shell user would type (the documented rule: only 'Dir/file.ini' that is neither absolute
+            # nor starts with a dot refers to the bundled configurations)
+            form = int(rng.integers(0, 6))
+            name = "g%d.ini" % t
+            if form == 0:
+                cfgarg = os.path.join(d, name)
+                open(cfgarg, "w").write(text)
+            elif form == 1:
+                cwd, cfgarg = d, name
+                open(os.path.join(d, name), "w").write(text)
+            elif form == 2:
+                cwd, cfgarg = d, "./" + name
+                open(os.path.join(d, name), "w").write(text)
+            elif form == 3:
+                cwd, cfgarg = os.path.join(d, "sub", "deep"), "../" + name
+                open(os.path.join(d, "sub", name), "w").write(text)
+            elif form == 4:
+                cwd, cfgarg = d, ".cfg/" + name
+                os.makedirs(os.path.join(d, ".cfg"), exist_ok=True)
+                open(os.path.join(d, ".cfg", name), "w").write(text)
+            else:
+                cwd, cfgarg = os.path.join(d, "sub", "deep"), "../../" + name
+                open(os.path.join(d, name), "w").write(text)
+            counters["cli_own_file_forms"] = counters.get("cli_own_file_forms", 0) + 1
+            keys.append("cli-form|%d" % form)
             sysname = [s.split(".", 1)[1] for s in secs if s.startswith("System_Config")][-1]
             memname = [s.split(".", 1)[1] for s in secs if s.startswith("Memory_Mode")][-1]
         try:
@@ -408,7 +431,7 @@ def run_cli(case):
             why = "traceback" if "Traceback" in p.stderr else (p.stdout.strip().splitlines() or ["?"])[-1][:80]
             why = re.sub(r"'[^']*'", "'..'", why)
             why = re.sub(r"/\S+", "<path>", why)
-            mech = "cli:valid-configuration-rejected:style%d:%s" % (style, why[:60])
+            mech = "cli:valid-configuration-rejected:style%d:%s:%s" % (style, "relative-own-file" if (style == 2 and not os.path.isabs(cfgarg)) else "given-path", why[:60])
             viol.setdefault(mech, {"mech": mech, "msg": "valid configuration (form %s, cwd %s) rejected: %s" % (["Dir/file.ini", "absolute", "generated"][style], cwd, why), "witness": wit})
             continue
         v = parse_verbose(p.stdout)
